@@ -85,6 +85,8 @@ void advanceVirtualNs(long long ns);
 void nameNextChild(const std::string &name);
 // number of registered, unfinished threads whose name starts with prefix
 int liveThreads(const char *prefix);
+// 0 = active (running or at a schedule point), 1 = parked in a condition wait, 2 = finished / not created
+int threadPhase(const std::string &name);
 void externBegin();
 void externEnd();
 
